@@ -94,7 +94,13 @@ func world() {
 	var err error
 	P, err = chainlab.NewPrelude(net, 16)
 	if err != nil {
-		ev.Fatal("prelude: %v", err)
+		if par.IsWorker() {
+			ev.Fatal("prelude: %v", err)
+		}
+		// the pool is never reached; block acceptance is C13's subject
+		run := ev.Start("C22", "model_checking")
+		run.Capped(fmt.Sprintf("world: could not be set up: %v", err))
+		run.Finish()
 	}
 	u1, u2 := P.U[0], P.U[1]
 	// t1: two spendable outputs and one retirement (OP_FAIL program), fee 1M
